@@ -65,6 +65,18 @@ theorem run_length_bounded {c : Cfg} {s' : State} (tr : List Ev) (h : run c (ini
 
 example : (run (Ex.chain2 false) (init (Ex.chain2 false)) Ex.okRun).isSome = true ∧ Ex.okRun.length = 7 := by decide
 
+/-- Progress: from every reachable state there is a finite continuation (of walker events only — no
+    further interrupt is needed) that ends with `Walk` returned and every selected node resolved.
+    Together with `terminates` (no infinite run) and `stuck_all_terminal` (no premature stop): every
+    maximal run of the walker is finite and ends in such a final state. -/
+theorem can_always_finish {c : Cfg} {s : State} (ok : CfgOK c) (h : Reach c s) :
+    ∃ tr s', run c s tr = some s' ∧ s'.retErr.isSome = true ∧
+      ∀ n, n ∈ c.sel → (s'.phase n).terminal = true := by
+  obtain ⟨tr, s', hr, hq⟩ := exists_run_to_quiescent c (measure c s) s (Nat.le_refl _)
+  have hreach : Reach c s' := Ex.reach_of_run tr h hr
+  have := quiescent_final ok (reach_inv ok hreach) hq
+  exact ⟨tr, s', hr, this.1, this.2⟩
+
 /-- When `Walk` returns through the wait group without cancellation, every selected node is in the
     completion map (`ok` / `failed`) or was skipped (`exited`) below a failed transitive dependency;
     the returned map is the snapshot of exactly these phases. -/
